@@ -12,10 +12,10 @@ MODEL_FILES = ('PatchDefs.v (apply_patch, detach_path, decode_pointer_inplace, c
 RULE = ('documents over keys {"", "/", "~", "~0", "~1", "a/b", "m~n", "0", "01", "a", "A", "foo", "Foo"} (distinct per object), nested arrays/objects; three patch '
         'streams: (1) RFC-shaped operations: every op x object/array/root targets x indices 0/size-1/size/size+1/-/01/escaped x existing and new keys needing escapes, '
         'move/copy from every node incl. into own child and array-shift; (2) sequences repeating operations on a container after a test (equal value with permuted members); '
-        '(3) arbitrary JSON values as patch (non-array, non-object elements, wrong types / missing op, path, from, value, unknown op, nested junk, odd pointers); both case modes. '
+        '(3) arbitrary JSON values as patch (non-array, non-object elements, wrong types / missing op, path, from, value, unknown op, nested junk, odd pointers); (4) a sample of all of these with cJSON_StringIsConst on keys of patch and document members (members added with cJSON_AddItemToObjectCS: keys backed by caller memory whose release or modification is reported); both case modes. '
         'verdict = independent python RFC 6902 evaluator (status 0 iff it succeeds, result equal as documents), no crash, allocator balanced, ledger delta = blocks gained, '
         'sibling chains healthy; non-trivial = distinct (doc, patch) with a non-empty patch array')
-ASSUMPTIONS = ['C locale', 'hand-written value-level transliteration (Tier B) validated by this differential run; Tier A (chain surgery) presupposed healthy and checked by the structural walk',
+ASSUMPTIONS = ['C locale', 'hand-written value-level transliteration (Tier B) validated by this differential run; that the primitives act on values as Tier B assumes is proved against the heap-level models (companion Properties_C16_TierBridge.v) and observed by the structural walk',
                'documents have distinct keys per object; conformance claimed for case-sensitive application, syntactically valid pointers, operation objects with distinct member names; '
                'removal of the whole document excluded', 'allocation failures are not part of this property', 'nesting below CJSON_CIRCULAR_LIMIT (cJSON_Duplicate)']
 
